@@ -16,6 +16,12 @@ package main
 //     the same with carriers whose Close() takes time: it blocks until the script lets it return
 //     (K<k>); the carrier counts as closed -- pending calls on it fail, open/max/closes/oad change --
 //     only when Close has RETURNED.
+//   turbotunnel redialq <cap> <qcap> <tokens>
+//     the same as redial for scripts that fill the adapter's queues: <tok>*<n> repeats a token; qcap is
+//     the capacity of the adapter's queues (the driver must know when a user ReadFrom would block: the
+//     adapter keeps at most qcap delivered packets).  The user's n-th WriteTo writes packet n-1, the
+//     carriers' n-th successful ReadFrom delivers packet n.  Two more observables:
+//       off=<packets handed to a carrier's WriteTo, in order, as ranges>  got=<packets the user's ReadFrom returned>
 //   After every token the driver waits until every goroutine of the adapter is parked.
 //   A token whose precondition does not hold (no such pending call) answers "n".
 //   Result: <answers> ; dials=<n> oad=<per carrier handed out by dialContext: the number of earlier
@@ -26,6 +32,7 @@ import (
 	"context"
 	"errors"
 	"net"
+	"runtime"
 	"strconv"
 	"strings"
 	"sync"
@@ -52,6 +59,9 @@ type scenario struct {
 	written     [][]byte
 	slow        bool  // Close() of a carrier blocks until released by the script
 	oad         []int // per carrier handed out: earlier carriers whose Close had not returned then
+	qcap        int   // capacity of the adapter's queues (0: the script never fills them)
+	queued      int   // delivered packets the adapter must be holding for the user
+	offered     []int // packets handed to a carrier's WriteTo, in order
 }
 
 type fakeConn struct {
@@ -96,11 +106,15 @@ func (f *fakeConn) ReadFrom(p []byte) (int, net.Addr, error) {
 			f.sc.mu.Lock()
 			f.sc.delivered++
 			seq := f.sc.delivered
+			if f.sc.qcap == 0 || f.sc.queued < f.sc.qcap {
+				f.sc.queued++ // (a full receive queue drops the packet)
+			}
 			f.sc.mu.Unlock()
 			// every packet is different (its sequence number), so a receive queue that aliases the
 			// adapter's read buffer shows up as a wrong packet at the user's ReadFrom
 			p[0] = byte(seq)
-			return 1, vaddr(1000 + f.id), nil
+			p[1] = byte(seq >> 8)
+			return 2, vaddr(1000 + f.id), nil
 		}
 		return 0, nil, errFake
 	case <-f.closedCh:
@@ -111,6 +125,11 @@ func (f *fakeConn) ReadFrom(p []byte) (int, net.Addr, error) {
 func (f *fakeConn) WriteTo(p []byte, addr net.Addr) (int, error) {
 	f.sc.mu.Lock()
 	f.writePending = true
+	if len(p) == 3 {
+		f.sc.offered = append(f.sc.offered, int(p[0])|int(p[1])<<8)
+	} else {
+		f.sc.offered = append(f.sc.offered, -1)
+	}
 	f.sc.mu.Unlock()
 	defer func() {
 		f.sc.mu.Lock()
@@ -201,11 +220,55 @@ func parked(st string) bool {
 		strings.HasPrefix(st, "chan send (nil") || strings.HasPrefix(st, "chan receive (nil")
 }
 
+// stackBuf is reused by settle (the scripts that fill the queues take thousands of steps; a fresh
+// megabyte per goroutine dump dominated their cost).  The driver settles from one goroutine only.
+var stackBuf = make([]byte, 256<<10)
+
+// redialStates: the scheduler states of the goroutines running adapter code.
+func redialStates() []string {
+	for {
+		n := runtime.Stack(stackBuf, true)
+		if n < len(stackBuf) {
+			return statesIn(string(stackBuf[:n]), redialMarker, redialMarker2)
+		}
+		stackBuf = make([]byte, 2*len(stackBuf))
+	}
+}
+
+func statesIn(dump string, markers ...string) []string {
+	var res []string
+	for _, blk := range strings.Split(dump, "\n\n") {
+		hit := false
+		for _, m := range markers {
+			if strings.Contains(blk, m) {
+				hit = true
+			}
+		}
+		if !hit {
+			continue
+		}
+		l := blk
+		if i := strings.IndexByte(l, '\n'); i >= 0 {
+			l = l[:i]
+		}
+		a, b := strings.IndexByte(l, '['), strings.LastIndexByte(l, ']')
+		if a < 0 || b < a {
+			continue
+		}
+		st := l[a+1 : b]
+		if i := strings.IndexByte(st, ','); i >= 0 {
+			st = st[:i]
+		}
+		res = append(res, st)
+	}
+	return res
+}
+
 // settle waits until every goroutine running adapter code is parked; returns their number.
 func settle() (int, bool) {
 	deadline := time.Now().Add(20 * time.Second)
 	for i := 0; ; i++ {
-		sts := goroutineStates(redialMarker, redialMarker2)
+		sts := redialStates()
 		all := true
 		for _, s := range sts {
 			if !parked(s) {
@@ -238,9 +301,58 @@ func runRedial(args []string, slow bool) string {
 	if len(args) < 2 {
 		return "!badcase"
 	}
-	toks := args[1]
+	return runRedialQ(strings.Split(args[1], ","), slow, 0)
+}
+
+// runRedialCap: turbotunnel redialq <cap> <qcap> <tokens with repetitions>
+func runRedialCap(args []string) string {
+	if len(args) < 3 {
+		return "!badcase"
+	}
+	qcap, err := strconv.Atoi(args[1])
+	if err != nil || qcap <= 0 {
+		return "!badcase"
+	}
+	var toks []string
+	for _, t := range strings.Split(args[2], ",") {
+		f := strings.Split(t, "*")
+		n := 1
+		if len(f) == 2 {
+			if n, err = strconv.Atoi(f[1]); err != nil {
+				return "!badcase"
+			}
+		} else if len(f) != 1 {
+			return "!badcase"
+		}
+		for i := 0; i < n; i++ {
+			toks = append(toks, f[0])
+		}
+	}
+	return runRedialQ(toks, false, qcap)
+}
+
+// ranges prints an integer sequence with its ascending runs folded: 0-2047.2049.2051-2060 ("e" if empty)
+func ranges(l []int) string {
+	var out []string
+	for i := 0; i < len(l); {
+		j := i
+		for j+1 < len(l) && l[j+1] == l[j]+1 {
+			j++
+		}
+		if j == i {
+			out = append(out, strconv.Itoa(l[i]))
+		} else {
+			out = append(out, strconv.Itoa(l[i])+"-"+strconv.Itoa(l[j]))
+		}
+		i = j + 1
+	}
+	return wirePrintSemi(out)
+}
+
+func runRedialQ(tokens []string, slow bool, qcap int) string {
 	base, _ := settle()
-	sc := &scenario{dialCue: make(chan bool), slow: slow}
+	sc := &scenario{dialCue: make(chan bool), slow: slow, qcap: qcap}
+	var got []int
 	conn := turbotunnel.NewRedialPacketConn(vaddr(1), vaddr(2), sc.dial)
 	if _, ok := settle(); !ok {
 		return "!unsettled"
@@ -249,7 +361,7 @@ func runRedial(args []string, slow bool) string {
 	consumed := 0
 	nwrites := 0
 	var out []string
-	for _, t := range strings.Split(toks, ",") {
+	for _, t := range tokens {
 		if t == "-" {
 			continue
 		}
@@ -305,20 +417,33 @@ func runRedial(args []string, slow bool) string {
 				}
 			}
 		case t == "W":
-			p := []byte{byte(nwrites), 0x17}
+			p := []byte{byte(nwrites), byte(nwrites >> 8), 0x17}
 			nwrites++
-			n, err := conn.WriteTo(p, vaddr(5))
-			scribble(p)
-			if err != nil {
-				ans = "E"
-			} else if n != 2 {
-				ans = "!n"
-			} else {
-				ans = "ok"
+			type wr struct {
+				n   int
+				err error
+			}
+			wdone := make(chan wr, 1)
+			go func() {
+				n, err := conn.WriteTo(p, vaddr(5))
+				wdone <- wr{n, err}
+			}()
+			select {
+			case r := <-wdone:
+				scribble(p)
+				if r.err != nil {
+					ans = "E"
+				} else if r.n != 3 {
+					ans = "!n"
+				} else {
+					ans = "ok"
+				}
+			case <-time.After(10 * time.Second):
+				return "!hang-write" // WriteTo must never block
 			}
 		case t == "R":
 			sc.mu.Lock()
-			avail := sc.delivered - consumed
+			avail := sc.queued
 			sc.mu.Unlock()
 			if avail <= 0 && !closedKnown {
 				ans = "B"
@@ -343,8 +468,17 @@ func runRedial(args []string, slow bool) string {
 						ans = "E"
 					} else {
 						consumed++
+						sc.mu.Lock()
+						sc.queued--
+						sc.mu.Unlock()
+						if r.n != 2 {
+							return "!aliased-read"
+						}
+						id := int(r.buf[0]) | int(r.buf[1])<<8
+						got = append(got, id)
 						// packets come out in the order the carriers delivered them, each with its own content
-						if r.n != 1 || r.buf[0] != byte(consumed) {
+						// (scripts that overflow the receive queue: judged from got= by the check)
+						if qcap == 0 && id != consumed {
 							return "!aliased-read"
 						}
 						scribble(r.buf)
@@ -386,13 +520,16 @@ func runRedial(args []string, slow bool) string {
 	}
 	// payloads that reached a carrier must be what the user passed, not the scribbled buffer
 	for _, w := range sc.written {
-		if len(w) != 2 || w[1] != 0x17 {
+		if len(w) != 3 || w[2] != 0x17 {
 			sc.mu.Unlock()
 			return "!aliased-write"
 		}
 	}
 	res := wirePrint(out) + ";dials=" + strconv.Itoa(sc.dials) + " oad=" + wirePrintSemi(oad) + " open=" + wirePrintSemi(open) + " max=" + strconv.Itoa(sc.maxOpen) +
 		" closes=" + wirePrintSemi(closes) + " dialing=" + b01(sc.dialPending) + " left=" + strconv.Itoa(n-base)
+	if qcap > 0 {
+		res += " off=" + ranges(sc.offered) + " got=" + ranges(got)
+	}
 	sc.mu.Unlock()
 
 	// clean up so that goroutines of this case do not pile up (whatever cannot terminate stays)
